@@ -625,10 +625,11 @@ class HyperscanTokenizer(Tokenizer):
                         )
                     except TypeError:
                         hyperscan_db = hyperscan.loadb(cache_bytes)
-                    except hyperscan.InvalidError:
+                    except hyperscan.error:
                         # Skipping hyperscan_db assignment to force a full
                         # database recompile as the cached version seems to be
-                        # invalid.
+                        # invalid (corrupted, truncated, or written by another
+                        # hyperscan version or for another platform).
                         pass
 
                     try:
